@@ -25,6 +25,14 @@ static void crash_line(const char *what)
                 (void)!write(1, buf, (size_t)n);
 }
 
+static void on_alarm(int sig)
+{
+        (void)sig;
+        // a single run (or one fault-enumerated history) that does not finish: cat_service never returned
+        crash_line("TIMEOUT");
+        _exit(71);
+}
+
 static void on_signal(int sig)
 {
         crash_line(sig == SIGSEGV ? "SIGSEGV" : sig == SIGABRT ? "SIGABRT" : sig == SIGBUS ? "SIGBUS" : sig == SIGFPE ? "SIGFPE" : "SIGNAL");
@@ -48,6 +56,10 @@ static void install_handlers()
         sigaction(SIGBUS, &sa, nullptr);
 #endif
         sigaction(SIGABRT, &sa, nullptr);
+        struct sigaction sal;
+        memset(&sal, 0, sizeof sal);
+        sal.sa_handler = on_alarm;
+        sigaction(SIGALRM, &sal, nullptr);
         sigaction(SIGFPE, &sa, nullptr);
         sigaction(SIGILL, &sa, nullptr);
 #ifdef SIM_ASAN
@@ -239,7 +251,9 @@ int main(int argc, char **argv)
                 install_handlers();
                 std::string prop = arg(argc, argv, "--prop", p.prop.c_str());
                 g_cur_idx = p.idx;
+                alarm(prop == "C16" ? 600 : 60);
                 Outcome o = check_plan(prop, p);
+                alarm(0);
                 printf("HASH %016llx\n", (unsigned long long)o.res.hash);
                 if (has_flag(argc, argv, "--dump")) {
                         printf("OUT \"%s\"\nCMD_UNITS \"%s\"\nEV_UNITS \"%s\"\nCMD_HANDLERS\n%sEV_HANDLERS\n%s", vis(o.res.out, 4000).c_str(), vis(o.res.cmd_units, 4000).c_str(),
@@ -309,7 +323,9 @@ int main(int argc, char **argv)
                 }
                 Plan p = gen_plan(profile, seed, idx, engine_qcap());
                 g_in_run = 1;
+                alarm(prop == "C16" ? 600 : 30); // watchdog: a run normally takes milliseconds
                 Outcome o = check_plan(prop, p);
+                alarm(0);
                 g_in_run = 0;
                 accumulate(agg, o);
                 bool nontrivial = (o.res.mon.lines_ok + o.res.mon.lines_error + o.res.mon.events_finished) > 0;
